@@ -136,7 +136,60 @@ def g_move_pack(r):
     return dict(self=m, pkt=p, fragments=mk_fragments(r), k=mk_kw(r))
 
 
+def mk_data(r, mode):
+    import re
+    from bisturi.field import Data, Int
+    conf = r.choice([{}, {}, {'search_buffer_length': 0}, {'search_buffer_length': r.randrange(1, 6)}])
+    p = Obj()
+    if mode == 'fixed':
+        f = Data(r.randrange(0, 5))
+    elif mode == 'field':
+        n = Int(1)
+        n.field_name = 'n'
+        p.n = r.choice([r.randrange(0, 6), r.randrange(-2, 8), None])
+        f = Data(n)
+    elif mode == 'callable':
+        v = r.choice([r.randrange(0, 6), r.randrange(-3, 8)])
+        f = Data((lambda v: (lambda **k: v))(v))
+    elif mode == 'marker':
+        inc = r.random() < 0.4
+        f = Data(until_marker=r.choice([b'\n', b'ab', b'aa', b'\r\n']), include_delimiter=inc,
+                 consume_delimiter=True if inc else r.random() < 0.7)
+    else:
+        inc = r.random() < 0.4
+        f = Data(until_marker=re.compile(r.choice([b'$', b'\r?\n', b'a+', b'[0-9]'])), include_delimiter=inc,
+                 consume_delimiter=True if inc else r.random() < 0.7)
+    f.field_name = 'x'
+    f._compile(position=0, fields=[], bisturi_conf=conf)
+    return f, p
+
+
+def rtext(r, n):
+    return bytes(r.choice(b'ab\n\r1x') for _ in range(n))
+
+
+def g_data_unpack(mode):
+    def g(r):
+        f, p = mk_data(r, mode)
+        off = r.randrange(0, 4)
+        raw = rtext(r, r.randrange(0, 10))
+        return dict(self=f, pkt=p, raw=raw, offset=off, k=mk_kw(r))
+    return g
+
+
+def g_data_pack(r):
+    f, p = mk_data(r, r.choice(['fixed', 'marker', 'regex']))
+    p.x = r.choice([rtext(r, r.randrange(0, 4)), rtext(r, 2), None, 7])
+    return dict(self=f, pkt=p, fragments=mk_fragments(r), k=mk_kw(r))
+
+
 GENERATORS = {
+    'field:Data._unpack_fixed_size': g_data_unpack('fixed'),
+    'field:Data._unpack_variable_size_field': g_data_unpack('field'),
+    'field:Data._unpack_variable_size_callable': g_data_unpack('callable'),
+    'field:Data._unpack_with_string_marker': g_data_unpack('marker'),
+    'field:Data._unpack_with_regexp_marker': g_data_unpack('regex'),
+    'field:Data.pack': g_data_pack,
     'field:Int._compile': g_int_compile,
     'field:Int._unpack_fixed_and_primitive_size': g_int_unpack(True),
     'field:Int._unpack_fixed_size': g_int_unpack(False),
